@@ -14,7 +14,8 @@ class Deadlock(Exception):
 
 
 class Sched:
-    def __init__(self, files, plan=(), opcodes=False, max_steps=20000):
+    def __init__(self, files, plan=(), opcodes=False, max_steps=20000, yield_points=False):
+        self.yield_points = yield_points      # an explicit point (a blocking socket call) lets the other threads run, as a real one does
         self.files = set(files)
         self.plan = set(plan)
         self.opcodes = opcodes
@@ -25,6 +26,7 @@ class Sched:
         self.trace = []
         self.tid_of = {}
         self.steps = 0
+        self.preempted = False
 
     # ---- worker side
     def tracer(self, tid):
@@ -93,7 +95,13 @@ class Sched:
             runnable = [t for t in live if not (self.parked[t][0] == "lockwait" and self.parked[t][1].held)]
             if not runnable:
                 return "DEADLOCK", errors
-            if cur not in runnable or self.steps in self.plan:
+            # blocking socket calls: after the first planned preemption (if there is a plan), a thread that reaches its socket call
+            # lets the others run; before it, the first thread runs undisturbed up to the planned point
+            armed = self.yield_points and (not self.plan or self.preempted)
+            at_point = armed and cur in self.parked and self.parked[cur][0] == "point" and len(runnable) > 1
+            if self.steps in self.plan:
+                self.preempted = True
+            if cur not in runnable or self.steps in self.plan or at_point:
                 # preempt (or the current thread finished / is blocked): next runnable thread in cyclic order
                 later = [t for t in runnable if t > cur]
                 cur = (later or runnable)[0]
